@@ -62,7 +62,7 @@ def outcomes (txns : List (List String)) : List (Bool × Bool) :=
     | "B" :: toks => some (false, toks.contains "c" || toks.contains "u")
     | _ => none
 
-/-- M11 (`Model/Reveal`, `Props/C03.what_another_transaction_reads_is_durable`): the discipline
+/-- M14 (`Model/Reveal`, `Props/C03.what_another_transaction_reads_is_durable`): the discipline
     "a transaction gives its locks back only when nothing of it is pending, unstable WRITEs aside",
     on the recorded events: `u` is the commit of a transaction that wrote something and did not wait
     for the disk; its locks are released right after it.  Only WRITE may do that. -/
